@@ -109,8 +109,10 @@ def unpack_attrs(a):
     attrs_to_ignore = ['spacing', 'name', '_dummy_channel', '_image_scaling']
     for attr in dict_without(attr_ref, attrs_to_ignore):
         if attr_ref[attr]:
+            # one-entry axes are flattened when stored as netCDF attributes
+            shape = [len(coord) for coord in attr_ref[attr].values()]
             new_attrs[attr] = xr.DataArray(
-                a[attr],
+                np.reshape(a[attr], shape),
                 coords=attr_ref[attr],
                 dims=list(attr_ref[attr].keys()))
         elif attr in a:
